@@ -351,34 +351,34 @@ ADDED = {
            'untouched factories with the same table.',
     'C03': 'engines used through per-call options and copy(); operand '
            'grids around every operator; numerals longer than the int/str '
-           'conversion limit and lone surrogates as offending tokens.',
+           'conversion limit and lone surrogates as offending tokens. every digit / number character after $ and inside words.',
     'C04': 'histories of evaluations without a context (with and then '
            'without data); def names under which the library has methods.',
     'C05': 'family members are also declared through real Python '
            'signatures with specs decorators, or as one callable typed per '
            'registration through parameter_type_func; union types in the '
-           'lattice; aliases and lazy keyword-only parameters. a host type with a value-dependent validator (one type object).',
+           'lattice; aliases and lazy keyword-only parameters. a host type with a value-dependent validator (one type object). undeclared parameters (typed from defaults, names resembling the injected ones); kinds set by registration flags; refused registrations as outcomes.',
     'C06': 'the same three ways of declaring members as C05; keyword-passed '
-           'arguments, zero-argument ties, partial orders, union types. a host type with a value-dependent validator, new type objects per enumeration order.',
+           'arguments, zero-argument ties, partial orders, union types. a host type with a value-dependent validator, new type objects per enumeration order. fixed zero-argument ties; members that differ only in inferred types.',
     'C07': 'the canary nested in lists and maps at every position; '
            'histories in which an auto-yaqlizing object hands out instances '
            'of slotted, plain and library classes before a never-yaqlized '
            'instance of the same class is probed. member names that end with / start with / contain a listed name.',
     'C08': 'integers as data (pow, shifts, repeated squaring, products, '
            'supplied values) under the quota; containers in hashable '
-           'positions; literal templates. frozen dictionaries measured by their table; remembered collections read a second time; dictionaries consumed by another function; pull counts of the per-step accumulators over a counting source.',
+           'positions; literal templates. frozen dictionaries measured by their table; remembered collections read a second time; dictionaries consumed by another function; pull counts of the per-step accumulators over a counting source. oversize collections nested in host data or inside a result.',
     'C09': 'a fourth mode with tuples holding mutable containers, input '
            'conversion on and output conversion off (results must not '
            'alias host data); residue in the supplied context; '
-           'context-less evaluations; hand-built libraries. per-evaluation contexts of the host (a variable read by helpers, overridden variable reads) and every statement in every ordered pair of them through one parsed object.',
+           'context-less evaluations; hand-built libraries. per-evaluation contexts of the host (a variable read by helpers, overridden variable reads) and every statement in every ordered pair of them through one parsed object. engine lineages (copies / per-call options parse the same texts in every order); mutable buffers as host collections.',
     'C10': 'one options dictionary reused for several engines; contexts '
            'composed (LinkedContext, MultiContext) from a standard and a '
            'hand-made finalizer-less context after the latter was used '
-           'alone; copy()/per-call option families. sparse option dictionaries; base engines with explicit options overridden by copy() / per-call options.',
+           'alone; copy()/per-call option families. sparse option dictionaries; base engines with explicit options overridden by copy() / per-call options. the legacy factory first on the same option dictionary; host-specific option values of any type.',
     'C11': 'operands that fail when evaluated (trace up to the failure, '
            'exception class, nothing afterwards); method calls on yaqlized '
            'objects; generate/generateMany with decycle; ordering key '
-           'selectors at most once per element. seedless accumulate laziness; mergeWith merger order.',
+           'selectors at most once per element. seedless accumulate laziness; mergeWith merger order. toDict selector order.',
     'C12': 'the sweep repeated in contexts created under the Python and the '
            'camelCase naming convention in one process in both creation '
            'orders with keyword names computed by a model; lazily '
@@ -391,29 +391,29 @@ ADDED = {
            'the 76 entries whose model is parametric in the elements '
            '(parametricity tested on the model); collection arguments as '
            'one-shot iterators; deeply nested dictionaries; which results '
-           'are lists and which are lazy. host records (tuples of python lists through input conversion) as elements; mergeWith over lists with repeated items.',
+           'are lists and which are lazy. host records (tuples of python lists through input conversion) as elements; mergeWith over lists with repeated items. chunks of sliceWhere / slice / splitWhere read later, reordered and twice.',
     'C14': 'distinct(keySelector), accumulate with a seed, list '
            'concatenation, selectMany over lazy and endless inners, zip '
            'passed as an argument, data supplied as one-shot iterators and '
            'unsized re-iterables; every case under a 60 s watchdog. delete() with positions before the start; any() without a predicate.',
     'C15': 'literal spellings of unary operators; combining sequences and '
-           'normalisation / case-folding look-alikes in the string corpus.',
+           'normalisation / case-folding look-alikes in the string corpus. operands whose products exceed the int/str conversion limit.',
     'C16': 'words lexed by engines with more / fewer operator words in one '
-           'process; identifier letters that are not in NFKC form. the option engine has an iterator limit of 2.',
+           'process; identifier letters that are not in NFKC form. the option engine has an iterator limit of 2. decimal numerals at the upper end of the finite doubles.',
     'C17': 'a LinkedContext whose own layer is empty; own-layer reads '
-           '(ask_parent=False) with defaults. directed histories: multi-context members with different parents defining the same names, every member order, varied allocation.',
+           '(ask_parent=False) with defaults. directed histories: multi-context members with different parents defining the same names, every member order, varied allocation. one definition in several contexts deleted through a multi-context.',
     'C18': 'a cold-start tier (fresh library context - also one assembled '
            'by hand without finalizer - and freshly parsed statement per '
            'run, thread A suspended at line granularity at the first '
            'execution of every line per shared object while B evaluates); '
            'nested-overlap schedules (A a points, B b points, A to its end, '
-           'B); three deeply nested statements. deep statements well inside and far outside the recursion limit, baselines in a thread of their own under the same hooks.',
+           'B); three deeply nested statements. deep statements well inside and far outside the recursion limit, baselines in a thread of their own under the same hooks. cold free-running and cold fork tiers: the first evaluations of a process made concurrently, in hundreds of forked processes.',
     'C19': 'lazily evaluated selector forms, hex, replacement dictionaries '
            'whose keys have one string form.',
     'C20': 'the process time zone is set to UTC+5:30 for the whole check; '
            'timespan arithmetic, format/parse, replace and now laws; a host '
            'zone with a varying offset for the (d + t) - t / (d + t) - d '
-           'laws. .utc of instants whose UTC reading is outside the representable range.',
+           'laws. .utc of instants whose UTC reading is outside the representable range. integer timestamps that could be years; max / min / orderBy order instants.',
 }
 
 
